@@ -18,7 +18,6 @@ import (
 	"fmt"
 	"iter"
 	"math"
-	"os"
 	"testing"
 	"time"
 
@@ -230,21 +229,14 @@ func TestCheck(t *testing.T) {
 
 	main := gen(r, rgs)
 	sel := selGen(r, cfgs, vlib.Pick(r, 3, 4))
-	only := os.Getenv("VERIF_C05_ONLY") // diagnosis only: "sel" or "main" runs one part
 	both := func(yield func(Case) bool) {
 		// the selector part is the smaller one: it goes first so that a slow machine cuts the larger part
 		for c := range sel {
-			if only == "main" {
-				break
-			}
 			if !yield(c) {
 				return
 			}
 		}
 		for c := range main {
-			if only == "sel" {
-				break
-			}
 			if !yield(c) {
 				return
 			}
